@@ -99,8 +99,10 @@ def run(ctx):
                (1, 2, 3, b"  padded  \x00 ", b"\x00\x20meter\x20\x00")]
     if ctx.thorough:
         combos += [(2, 0, 1, bytes(range(16)), bytes(range(64))), (1, 1, 1, bytes(range(63)), bytes(range(32)))]
-    for suite, cic, meter_ic, ch_c, ch_m in combos:
-        k, c, ops, peer = cc.hls_session(suite=suite, cic=cic, mic=0, meter_ic=meter_ic, challenge_c=ch_c, challenge_m=ch_m, tail=False)
+    # the mechanism the connection object was configured with does not matter: what the meter selects in the AARE does
+    combos = [x + (5,) for x in combos] + [(0, 2, 6, cc.CHALLENGE_C, cc.CHALLENGE_M, a) for a in (None, 0, 1)]
+    for suite, cic, meter_ic, ch_c, ch_m, auth in combos:
+        k, c, ops, peer = cc.hls_session(suite=suite, cic=cic, mic=0, meter_ic=meter_ic, challenge_c=ch_c, challenge_m=ch_m, tail=False, auth=auth)
         head = ops[:4]                                           # AARQ, AARE, reply, ACTION request
         base = cc.run_impl(k, c, head)
         mtitle = base[-1][1][3]
